@@ -61,7 +61,14 @@ if '--all' not in sys.argv:
         idx[name]['seconds'] = e.get('seconds')
 if dropped:
     print('not registered (no closing run recorded in expected.json):', ', '.join(sorted(dropped)), file=sys.stderr)
-json.dump(idx, open(os.path.join(V, 'lib', 'harness_index.json'), 'w'), indent=1, sort_keys=True)
+# `--all` (every harness in the sources, whatever expected.json says) is a development view: it goes to a side file, the
+# registered index lib/harness_index.json is only ever replaced atomically by a complete one
+out = os.path.join(V, 'lib', 'harness_index.json')
+if '--all' in sys.argv:
+    out = os.path.join(V, '.cache', 'harness_index.all.json')
+    os.makedirs(os.path.dirname(out), exist_ok=True)
+json.dump(idx, open(out + '.tmp', 'w'), indent=1, sort_keys=True)
+os.replace(out + '.tmp', out)
 byp = {}
 for k, v in idx.items():
     byp.setdefault(v['prop'], []).append(k)
